@@ -597,7 +597,7 @@ def any_triple(rng, minor=None, minor_change=False):
 
 # ------------------------------------------------------------------ focused pairs for the differ
 FOCI = ['caps-mime-output', 'caps-mime-attachment', 'empty-data', 'json-mime-change', 'text-mime-lines', 'stream-seps', 'traceback', 'svg-change',
-        'output-metadata', 'custom-json-mime']
+        'output-metadata', 'custom-json-mime', 'falsy-change', 'list-valued-insert']
 
 
 def focused_pair(rng, focus=None):
@@ -626,6 +626,14 @@ def focused_pair(rng, focus=None):
         out['data']['image/svg+xml'] = '<svg>\n<circle r="1"/>\n<rect/>\n</svg>'
     elif focus == 'output-metadata':
         out['metadata'] = {'image/png': {'width': 10}}
+    falsy_at = None
+    if focus == 'falsy-change':
+        # a key held on both sides changes from one empty / falsy value to a different one
+        falsy_at = rng.choice(['nb', 'cell', 'output'])
+        v0 = copy.deepcopy(rng.choice(FALSY))
+        {'nb': a['metadata'], 'cell': c['metadata'], 'output': out['metadata']}[falsy_at]['flag'] = v0
+    if focus == 'list-valued-insert':
+        c['metadata']['grid'] = [[1, 2], [3, 4]]
     if focus == 'stream-seps':
         out = {'output_type': 'stream', 'name': 'stdout', 'text': 'a\rb\r\nc\x0cd\ne'}
     if focus == 'traceback':
@@ -655,6 +663,12 @@ def focused_pair(rng, focus=None):
         bo['data']['image/svg+xml'] = bo['data']['image/svg+xml'].replace('r="1"', 'r="2"')
     elif focus == 'output-metadata':
         bo['metadata'] = {'image/png': {'width': 20}}
+    elif focus == 'falsy-change':
+        holder = {'nb': b['metadata'], 'cell': b['cells'][0]['metadata'], 'output': bo['metadata']}[falsy_at]
+        holder['flag'] = copy.deepcopy(rng.choice([v for v in FALSY if type(v) is not type(holder['flag']) and (v, holder['flag']) not in ((0, False), (False, 0))]))
+    elif focus == 'list-valued-insert':
+        g = b['cells'][0]['metadata']['grid']
+        g.insert(rng.randrange(3), copy.deepcopy(rng.choice([[], [7], [[5]], {'k': [6]}])))
     elif focus == 'stream-seps':
         bo['text'] = 'a\rB\r\nc\x0cd\ne\n'
     elif focus == 'traceback':
